@@ -397,7 +397,7 @@ class Rdataset(dns.set.Set):
                     if rd.rdcomment:
                         extra = f" ;{rd.rdcomment}"
                 if style.want_generic:
-                    rdata_text = rd.to_generic().to_styled_text(style)
+                    rdata_text = rd.to_generic(style.origin).to_styled_text(style)
                 else:
                     rdata_text = rd.to_styled_text(style)
                 s.write(
